@@ -1,6 +1,7 @@
 pub mod c03;
 pub mod c04;
 pub mod c12;
+pub mod c05;
 pub mod c10;
 pub mod c11;
 pub mod c16;
@@ -8,6 +9,7 @@ pub mod c17;
 #[cfg(feature = "hash")]
 pub mod c18;
 pub mod util;
+pub mod xspec;
 
 use vcore::run::{parse_args, run, CheckFn};
 
@@ -16,6 +18,7 @@ pub fn lookup(prop: &str) -> Option<CheckFn> {
         "C03" => Some(c03::check),
         "C04" => Some(c04::check),
         "C12" => Some(c12::check),
+        "C05" => Some(c05::check),
         "C10" => Some(c10::check),
         "C11" => Some(c11::check),
         "C16" => Some(c16::check),
